@@ -321,7 +321,28 @@ def check_C17(ctx):
                             'spec-as-oracle (rule level): TLC evaluates the rules, no state-machine content', 'TLC, CommunityModules Json']}
 
 
-CHECKS = {'C17': check_C17, 'C08': check_C08, 'C13': check_C13, 'C19': check_C19, 'C05': check_C05, 'C15': check_C15, 'C11': check_C11, 'C09': check_C09, 'C10': check_C10, 'C01': check_C01, 'C02': check_C02, 'C03': check_C03, 'C04': check_C04, 'C06': check_C06,
+def check_C20(ctx):
+    from harness import layer_sup
+    res = runner.memo('sup', ctx, lambda: layer_sup.run(ctx))
+    viol = [{'clause': f['fails'][0][0], 'all_clauses': sorted({c[0] for c in f['fails']}), 'where': 'event %d' % f['fails'][0][1],
+             'payload': {'layer': 'sup', 'g': f['g'], 's': f['s']}} for f in res['fails']]
+    cov = {'states': res['states'], 'transitions': res['transitions'], 'traces_validated_against_impl': res['n_traces'],
+           'samples': res['samples'], 'evaluations': res['resolves'], 'distinct_nontrivial': res['nontrivial'],
+           'rule': 'seeded random source descriptions (nested / conditional choices, incompatibilities) x a generated supplementary graph '
+                   'with 1-3 (possibly nested) choices, each mapped by an option mapping (incl. the inactive case) or an existence '
+                   'mapping (priority order) declared on nodes and choices of the initialised source graph; every final feasible source '
+                   'architecture is resolved; every fifth item is a deliberately malformed variant (incomplete, duplicate, unmapped) and '
+                   'every non-final source is tried once; non-trivial = at least two source architectures resolved',
+           'items': res['n_items'], 'negative_variants': res['negatives'], 'inactive_source_choice_cases': res['inactive_cases'],
+           'nested_supplementary_graphs': res['nested_sup'], 'exhaustive': False}
+    return {'level': 'model_checking', 'coverage': cov, 'violations': viol,
+            'assumptions': ['SupExpected in Mon_Sup.tla: mapped option per active supplementary choice, result = derivation closure (DSGSem)',
+                            'chained supplementary graphs (source = a resolved supplementary graph) are not generated',
+                            'rule-level oracle over the architectures produced by the code under test (their correctness is C02)',
+                            'TLC, CommunityModules Json']}
+
+
+CHECKS = {'C20': check_C20, 'C17': check_C17, 'C08': check_C08, 'C13': check_C13, 'C19': check_C19, 'C05': check_C05, 'C15': check_C15, 'C11': check_C11, 'C09': check_C09, 'C10': check_C10, 'C01': check_C01, 'C02': check_C02, 'C03': check_C03, 'C04': check_C04, 'C06': check_C06,
           'C07': check_C07, 'C14': check_C14, 'C16': check_C16}
 
 
@@ -331,6 +352,9 @@ def replay_payload(payload):
     if layer == 'graph':
         from harness import layer_graph
         return layer_graph.replay(payload['g'])
+    if layer == 'sup':
+        from harness import layer_sup
+        return layer_sup.replay(payload)
     if layer == 'metrics':
         from harness import layer_metrics
         return layer_metrics.replay(payload['g'])
